@@ -78,7 +78,15 @@ impl Monitor for ExchangeMon {
         // the selected parent (the port stays slave to it in these worlds)
         if matches!(run.node.port_ref(0).port_ds().port_state, PS::Slave) {
             let p = run.node.inst.parent_ds().parent_port_identity;
-            st.parent = Some(Pid { clock: p.clock_identity.0, port: p.port_number });
+            let now = Some(Pid { clock: p.clock_identity.0, port: p.port_number });
+            if st.parent.is_some() && st.parent != now {
+                // another parent has been selected: what arrived from the old one belongs to no
+                // exchange with the new one
+                st.syncs.clear();
+                st.fups.clear();
+                st.resps.clear();
+            }
+            st.parent = now;
         }
         match ev {
             Ev::RawAt(p, h, bits) => self.note_frame(st, run, &unhex(h), Some(bits.parse().unwrap()), *p),
@@ -269,6 +277,7 @@ pub fn systems(tier: Tier) -> Vec<Built> {
         ("e2e-asym+1000.5", &MON_ASYM, 65534, 2),
         ("e2e-asym-250.25", &MON_NEG, 7, 2),
         ("e2e-three-syncs", &MON0, 65535, 3),
+        ("e2e-reparent", &MON0, 300, 1),
     ] {
         if n_sync == 3 && tier == Tier::Quick {
             continue;
@@ -313,17 +322,24 @@ pub fn systems(tier: Tier) -> Vec<Built> {
         t += 1;
         let rx = (tag_ns(t) as u128) << 32 | 0x0bad_0001;
         alpha = alpha.add(Ev::RawAt(0, hex(&b.sync(seq0, true, Ts::default(), tag_corr(t))), rx.to_string()));
+        // the BMCA keeps running (the parent keeps announcing), and in the re-parenting world the
+        // port starts as slave of B (priority1 100) until the better A is selected
+        alpha = alpha.add(Ev::Bmca).add(Ev::Ann(0, 0));
+        let reparent = name.contains("reparent");
+        if reparent {
+            cfg.peers[1].priority1 = 100;
+        }
         let sys = WorldSys {
             property: "C09",
             name: name.to_string(),
             cfg,
-            seed: vec![Ev::Ann(0, 0), Ev::Ann(0, 0), Ev::Bmca],
+            seed: if reparent { vec![Ev::Ann(0, 1), Ev::Ann(0, 1), Ev::Bmca] } else { vec![Ev::Ann(0, 0), Ev::Ann(0, 0), Ev::Bmca] },
             alphabet: alpha.0,
             obedient: true,
             monitor: mon,
             macros: vec![],
         };
-        out.push(Built { sys, depth: if n_sync == 3 { (8, 10) } else { (10, 13) } });
+        out.push(Built { sys, depth: if n_sync == 3 { (8, 10) } else if reparent { (7, 9) } else { (9, 12) } });
     }
     out
 }
